@@ -186,6 +186,8 @@ def _hist_body(ops, ps, reuse_at, which):
                 why = step(ctx, op, p)
             except AliasError as e:
                 why = 'step %s raised AliasError outside a write: %r' % (op, e)
+            except (TypeError, ValueError, KeyError):
+                why = None        # the operation itself was rejected for an unrelated reason (e.g. >> of vectors of different kinds): not part of this property
             if why:
                 return H.fail('history %r (reuse at allocation %d of dead identity #%d%s): %s' % (ops, reuse_at, which, ', reused' if model.reused else '', why))
         # probe EVERY live vector
